@@ -9,6 +9,7 @@ nothing ready and no timer due at the current virtual instant.
 from __future__ import annotations
 
 import asyncio
+import contextlib
 import asyncio.events
 import gc
 import selectors
@@ -112,6 +113,21 @@ class Sim:
     def __exit__(self, *exc):
         self.teardown()
         return False
+
+    @contextlib.contextmanager
+    def outside(self):
+        """Construct library objects the way an application does before it starts its loop: no loop is running and
+        the thread's current event loop is some other loop, which never runs.  Anything an object binds to at
+        construction time is then bound to the wrong loop."""
+        decoy = asyncio.new_event_loop()
+        asyncio.events._set_running_loop(None)
+        asyncio.set_event_loop(decoy)
+        try:
+            yield
+        finally:
+            asyncio.set_event_loop(self.loop)
+            asyncio.events._set_running_loop(self.loop)
+            decoy.close()
 
     # -- time / timers ---------------------------------------------------
     @property
